@@ -5,7 +5,7 @@
 HERE="$(cd "$(dirname "$0")" && pwd)"; cd "$HERE/.."
 MAP="da3c3df:C02 aa6e4d4:C02 c3f8148:C12 3c843f4:C14 835dc69:C13 dad2220:C13 8755b5b:C18 d041a90:C18 3855ee0:C19 b5f586c:C19 80bde8e:C04
 9459be6:C09 949a778:C01 d9bcd34:C08 b2fd6a5:C04 5352129:C16 75f4273:C17 49aadc2:C17 f9c0de8:C09 1afbcc8:C18 066afa8:C18 488aedd:C13
-2a43627:C13 0012737:C11 e07406b:C16 98929b8:C18 fc44de9:C11 b37cdc2:C06 86fe398:C11 db1ad4f:C04 7c407c7:C18 c7208ba:C05 c7208ba:C15 e8db101:C20 4dc0e93:C20 0c33d56:C14 ad9c6d5:C14 97d0d4c:C04 775dd2e:C04 3a0a835:C04 ecc655e:C11 3143fec:C17 75a81f6:C04 1bfdd2a:C18 7069a7c:C18 507faa2:C18 17c3035:C16 4104599:C13 ea5370c:C14"
+2a43627:C13 0012737:C11 e07406b:C16 98929b8:C18 fc44de9:C11 b37cdc2:C06 86fe398:C11 db1ad4f:C04 7c407c7:C18 c7208ba:C05 c7208ba:C15 e8db101:C20 4dc0e93:C20 0c33d56:C14 ad9c6d5:C14 97d0d4c:C04 775dd2e:C04 3a0a835:C04 ecc655e:C11 3143fec:C17 75a81f6:C04 1bfdd2a:C18 7069a7c:C18 507faa2:C18 17c3035:C16 4104599:C13 ea5370c:C14 4bf1e19:C20"
 for e in $MAP; do c=${e%%:*}; p=${e##*:}
   if [ $# -gt 0 ]; then case " $* " in *" $c "*) ;; *) continue;; esac; fi
   echo "### revert $c $p"; SEEDS="${SEEDS:-1 2}" selftest/run_mutant.sh selftest/mutants/revert-fix-$c.patch $p 2>&1 | grep -E "SEEDS:|MUTANT|patch failed"
